@@ -43,6 +43,17 @@ var dkgPropertyOf = map[string]string{
 	"dkg-daemon-died":               "C20",
 }
 
+// endpoints prints a participant list in a canonical form.
+func endpoints(es []*pb.Endpoint) string {
+	var out []string
+	for _, e := range es {
+		out = append(out, fmt.Sprintf("%d=%s:%d", e.GetId(), e.GetName(), e.GetPort()))
+	}
+	sort.Strings(out)
+
+	return strings.Join(out, ",")
+}
+
 type dkgOutcome struct {
 	success, recovered bool
 	signed             [2]int
@@ -196,6 +207,9 @@ func runDKG(c *DKGCase, only string) (*dkgOutcome, *vkit.Violation, error) {
 		}
 		if found.GetSigningThreshold() != c.T || uint32(len(found.GetParticipants())) != c.N {
 			report("generation-inconsistent", "%s: participant %d holds threshold %d and %d participants", where, m.id, found.GetSigningThreshold(), len(found.GetParticipants()))
+		}
+		if got, want := endpoints(found.GetParticipants()), endpoints(gresp.GetParticipants()); got != want {
+			report("generation-inconsistent", "%s: participant %d holds the participant list %s, the client was given %s", where, m.id, got, want)
 		}
 		m.share = found.GetPublicKey()
 	}
